@@ -33,6 +33,9 @@ CHECKS = {
  "C02": ("model_checking", "the inspection is the model: for every enumerated program it accepts, each fact it asserts (required keys, created/suppressed keys, parameter origins, unknown parameters) is replayed against real executions and the reference interpreter",
          "All programs to length 2-3 (thorough 3-4) over the alphabet without deliberately failing processors plus near-spine programs of length 8; every accepted one is executed with exactly the reported required keys and with every superset by 1 (thorough 2) further keys: no unresolvable-parameter, deleted-key, unknown-parameter or type-gate failure may occur; with context == required keys, per-node created/suppressed keys and each parameter's origin channel and origin node must match the run. Use-before-create, create-and-require, delete-then-require and type changes across context-only nodes all occur within the bound.",
          "reference interpreter bound to the implementation by C01; overwrite counts as created; non-flow failures (processor arithmetic, payload-source collision) are outside the claim", "3 C02"),
+ "C03": ("model_checking", "exhaustive enumeration of sweep specifications against a reference sweep enumerator (closed-form ranges, sorted product / zip / broadcast, computed > node > context > default merge, own expression evaluator)",
+         "1-3 variables declared in non-sorted order over range (linear/log, with/without endpoint, 1 and 3 steps), explicit sequences (mapping and YAML-list form, lengths 1-3) and from_context domains; both modes, broadcast on/off; expressions incl. none, functions and multi-variable forms; source, operation and probe wrappers; every placement of the non-swept parameter; alone and inside surrounding pipelines (sum, slicer, probe); precedence and rejection cases. Element count, order and values, the typed collection / probe list, data pass-through and every <var>_values key must equal the reference.",
+         "reference mc/ref/sweep.py written from docs/source/collection_modifiers.rst; relative tolerance 1e-9 on range values", "3 C03"),
 }
 NA = []
 def main():
